@@ -358,7 +358,7 @@ where
 {
     let mut stats = DevStats::default();
     let mut viols: Vec<DevViolation> = Vec::new();
-    let mut absorb = |devs: &BTreeMap<usize, usize>, r: &RunResult, stats: &mut DevStats, viols: &mut Vec<DevViolation>| {
+    let absorb = |devs: &BTreeMap<usize, usize>, r: &RunResult, stats: &mut DevStats, viols: &mut Vec<DevViolation>| {
         stats.executions += 1;
         stats.events += r.events;
         stats.max_points = stats.max_points.max(r.points.len());
